@@ -29,7 +29,8 @@ RULE = ('bundles of 10-30 probe calls drawn from the API table (all exported '
     'history hash) probe executions whose result contains an array')
 REQUIRED = {'cross-history': 300, 'repeatable': 300, 'global-rng-untouched':
     300, 'no-legacy-random': 300, 'generator-only': 40, 'generator-clone': 20,
-    'uninitialised-memory': 150, 'no-identity-cache': 150}
+    'uninitialised-memory': 150, 'no-identity-cache': 150,
+    'same-objects-again': 300}
 REQUIRED_EVENTS = {'default-dicts-poisoned': 20, 'seeded-probes': 60,
     'fitting-probes-with-default-info': 10}
 ASSUMPTIONS = ['rand_custom without f is documented to use numpy.random.randn '
